@@ -2,6 +2,7 @@ package exec
 
 import (
 	"fmt"
+	"os"
 	"strings"
 	"sync"
 	"time"
@@ -65,7 +66,11 @@ func (ps *pathSolver) check(st *State, pc *pcList, c *term.Node) (smt.Result, *t
 	gv := valueRequest(ps.printer)
 	script := ps.sb.String()
 	ps.sb.Reset()
+	tq := time.Now()
 	lines, ok := ps.proc.Exec(script, time.Duration(ps.timeout)*time.Millisecond+3*time.Second)
+	if d := time.Since(tq); d > 500*time.Millisecond && os.Getenv("VP_PROF") != "" {
+		fmt.Fprintf(os.Stderr, "slow feasibility query: %.2fs, %d bytes, answer %v at %s\n", d.Seconds(), len(script), lines, st.where())
+	}
 	if !ok {
 		// process was restarted: all definitions are lost
 		ps.printer = term.NewPrinter(ps.b, ps.sb)
